@@ -231,3 +231,76 @@ func (p *epParser) block(stmts []ast.Stmt, top bool) ([]string, error) {
 }
 
 func firstLine(s string) string { return strings.SplitN(s, "\n", 2)[0] }
+
+// parseDecoderStrips reads the credential section of the generated server request decoder
+// Decode<Method>Request: the payload fields whose "scheme prefix" is stripped
+// (`if strings.Contains(payload.F, " ") { … SplitN … }`), in order of appearance.
+func parseDecoderStrips(file, varName string) ([]string, error) {
+	fset := token.NewFileSet()
+	f, err := parser.ParseFile(fset, file, nil, 0)
+	if err != nil {
+		return nil, err
+	}
+	for _, decl := range f.Decls {
+		fd, ok := decl.(*ast.FuncDecl)
+		if !ok || fd.Name.Name != "Decode"+varName+"Request" {
+			continue
+		}
+		fields := []string{}
+		var bad error
+		ast.Inspect(fd.Body, func(n ast.Node) bool {
+			is, ok := n.(*ast.IfStmt)
+			if !ok {
+				return true
+			}
+			call, ok := is.Cond.(*ast.CallExpr)
+			if !ok {
+				return true
+			}
+			sel, ok := call.Fun.(*ast.SelectorExpr)
+			if !ok || !isIdent(sel.X, "strings") || sel.Sel.Name != "Contains" || len(call.Args) != 2 {
+				return true
+			}
+			if bl, ok := call.Args[1].(*ast.BasicLit); !ok || bl.Value != `" "` {
+				bad = fmt.Errorf("strings.Contains with an unexpected separator %v", call.Args[1])
+				return false
+			}
+			x := call.Args[0]
+			if st, ok := x.(*ast.StarExpr); ok {
+				x = st.X
+			}
+			fs, ok := x.(*ast.SelectorExpr)
+			if !ok || !isIdent(fs.X, "payload") {
+				bad = fmt.Errorf("strings.Contains on something that is not a payload field")
+				return false
+			}
+			// the body must assign the part after the first space back to the same field
+			okBody := false
+			ast.Inspect(is.Body, func(m ast.Node) bool {
+				if c, ok := m.(*ast.IndexExpr); ok {
+					if sc, ok := c.X.(*ast.CallExpr); ok {
+						if s2, ok := sc.Fun.(*ast.SelectorExpr); ok && s2.Sel.Name == "SplitN" && len(sc.Args) == 3 {
+							n, _ := sc.Args[2].(*ast.BasicLit)
+							i, _ := c.Index.(*ast.BasicLit)
+							if n != nil && i != nil && n.Value == "2" && i.Value == "1" {
+								okBody = true
+							}
+						}
+					}
+				}
+				return true
+			})
+			if !okBody {
+				bad = fmt.Errorf("prefix stripping of %s is not SplitN(…, \" \", 2)[1]", fs.Sel.Name)
+				return false
+			}
+			fields = append(fields, fs.Sel.Name)
+			return true
+		})
+		if bad != nil {
+			return nil, bad
+		}
+		return fields, nil
+	}
+	return nil, fmt.Errorf("function Decode%sRequest not found in %s", varName, file)
+}
